@@ -28,7 +28,7 @@ def run(ctx, out):
     out.assumptions = [
         "the client is driven on a virtual clock (time.perf_counter/time.time patched, asyncio loop time = that clock): time passes only in asyncio.sleep and in the scripted request; computation takes no time",
         "tick-exact runs use dyadic parameters (throughputs 1/4..4 ops/s, clients and totals powers of two, 1 tick = 1 s or 1/4 s) so that the implementation's float arithmetic is exact and L1/L2 are equalities; "
-        "millisecond runs with non-dyadic parameters are recorded rounded to 1 ms and checked with L1 only, tolerance 2 ms",
+        "millisecond runs with non-dyadic parameters are recorded rounded to 1 ms and checked with L1 only, tolerance 3 ms",
         "the first request of a throttled task (and every request before the first successful one) is scheduled at 0 by the code and then has latency = service time: named in the model (sched = 0), not flagged; L1 requires latency-from-schedule only for requests with a scheduled time > 0",
         "a task's runner reports one unit throughout a run; error outcomes are elasticsearch ApiError (400), plain TransportError and ConnectionTimeout with on-error=continue; fatal ConnectionError and on-error=abort are not covered",
         "every request performs exactly one wire request that sets request_start and request_end (nested / missing request contexts are C18)",
@@ -46,7 +46,7 @@ def run(ctx, out):
             "variant LatencyEndsAtResponse=FALSE (latency ends at processing_end) violates C04_LatencyFromSchedule in the model, as expected",
         ),
         seed_off=401,
-        n_sim=1200 if ctx.quick else 9000,
+        n_sim=1500 if ctx.quick else 9000,
         n_rand=500 if ctx.quick else 5000,
     )
     for key in ("throttled_requests", "requests_behind_schedule", "requests_that_slept_until_schedule", "failed_requests", "weight_changes", "runs_aborted_by_unit_check", "runs_with_unit_conversion", "poisson_requests"):
